@@ -206,6 +206,12 @@ def handle : Handler
       let some r := r.toRat? | return bad
       let some center := center.toRats? | return bad
       return encRes (Fac.sphereVol k r center)
+  | "f_sphere_vol_sq", [k, r, center] => some <| Id.run do
+      let some [s2, s3, s6] := k.toRats? | return bad
+      let k : ℚ × ℚ × ℚ := (s2, s3, s6)
+      let some r := r.toRat? | return bad
+      let some center := center.toRats? | return bad
+      return encRes (Fac.sphereVolSquare k r center)
   | "f_torus_vol", [k, r1, r2, center, normal, xaxis, ty, aux, lam] => some <| Id.run do
       let some k := decConsts k | return bad
       let some r1 := r1.toRat? | return bad
